@@ -86,10 +86,31 @@ def run(ctx):
                         % src(node), f, node)
     ctx.anchor(n >= 2, 'LLE.__call__: tolerance comparisons not found')
     # both tests are part of the use_cache conjunction together with the chemicals
-    uc = [x for x in walk_no_nested(f.node) if isinstance(x, ast.Assign) and src(x.targets[0]) == 'use_cache']
-    if uc and isinstance(uc[0].value, ast.BoolOp) and isinstance(uc[0].value.op, ast.And) and len(uc[0].value.values) == 4 \
-            and 'self._lle_chemicals == lle_chemicals' in src(uc[0].value.values[1]):
-        d1.ok('LLE.__call__', 'reuse requires the flag AND same chemicals AND temperature AND composition tests', f, uc[0])
+    # decided per path: every path that takes the remembered K has established the caller's flag AND the same chemicals AND the
+    # temperature test AND the composition test (in whatever statement form the conjunction is written)
+    from ..pathcond import resolved_conds, implied as _imp
+    cps, _ = run_paths(f.node, max_paths=6000, follow_except=False)
+    n_reuse = 0
+    all4 = True
+    flagp = 'use_cache' if 'use_cache' in f.params else None
+    first = None
+    for p in cps:
+        uses = [e for e in p.events if e.kind == 'assign' and isinstance(e.stmt, ast.Assign) and src(e.stmt.value) == 'self._K']
+        if not uses:
+            continue
+        n_reuse += 1
+        first = first or uses[0].stmt
+        rc = resolved_conds(p, keep=set(f.params) - {flagp})      # the flag parameter may be re-bound to the conjunction itself
+        facts = [
+            _imp(rc, lambda t: isinstance(t, ast.Name) and t.id == flagp),
+            _imp(rc, lambda t: isinstance(t, ast.Compare) and len(t.ops) == 1 and isinstance(t.ops[0], ast.Eq) and 'self._lle_chemicals' in (src(t.left), src(t.comparators[0]))),
+            _imp(rc, lambda t: isinstance(t, ast.Compare) and len(t.ops) == 1 and isinstance(t.ops[0], (ast.Lt, ast.LtE)) and 'temperature_cache_tolerance' in src(t.comparators[0])),
+            _imp(rc, lambda t: isinstance(t, ast.Call) and 'composition_cache_tolerance' in src(t) and 'temperature_cache_tolerance' not in src(t)),
+        ]
+        if not all(x is True for x in facts):
+            all4 = False
+    if n_reuse and all4:
+        d1.ok('LLE.__call__', 'reuse requires the flag AND same chemicals AND temperature AND composition tests (%d reuse paths)' % n_reuse, f, first)
     else:
         d1.fail('LLE.__call__', 'reuse-conjunction', 'the reuse decision is not the conjunction of flag, chemicals, temperature and composition tests', f, f.node)
 
@@ -194,14 +215,21 @@ def run(ctx):
     sle_rules(ctx, d4)
     sle = prog.cls('SLE', SLEF)
     c = sle.methods['__call__']
-    ps, _ = run_paths(c.node, max_paths=20000, follow_except=False)
+    ps, _ = run_paths(prog.normal_form(c), max_paths=20000, follow_except=False)
     seen = {}
+    from ..pathcond import resolved_conds as _rcs, implied2 as _imp2
+    Tp = 'T'
+
+    def _cmp(t, ops, a, b):
+        return isinstance(t, ast.Compare) and len(t.ops) == 1 and isinstance(t.ops[0], ops) and src(t.left) == a and src(t.comparators[0]) == b
     for p in ps:
         if p.raised:
             continue
-        pure = implied(p.conds, lambda e: src(e) == 'self._chemical')
-        tg = implied(p.conds, lambda e: src(e) == 'T_given')
-        hot = implied(p.conds, lambda e: src(e) == 'T > Tm')
+        rc = _rcs(p, keep=set(c.params))
+        pure = implied(rc, lambda e: src(e) == 'self._chemical')
+        tg = _imp2(rc, lambda e: _cmp(e, ast.IsNot, Tp, 'None'), lambda e: _cmp(e, ast.Is, Tp, 'None'))
+        hot = _imp2(rc, lambda e: _cmp(e, ast.Gt, Tp, 'self._chemical.Tm') or _cmp(e, ast.Lt, 'self._chemical.Tm', Tp),
+                    lambda e: _cmp(e, ast.LtE, Tp, 'self._chemical.Tm') or _cmp(e, ast.GtE, 'self._chemical.Tm', Tp))
         if pure and tg and hot is not None:
             liq = [e for e in p.events if e.kind == 'store' and e.target.startswith('self._liquid_mol[')]
             sol = [e for e in p.events if e.kind == 'store' and e.target.startswith('self._solid_mol[')]
